@@ -114,8 +114,8 @@ pub fn key_id(family: u8, kind: Kind, paserk_text: &str) -> [u8; 33] {
 
 // ------------------------------------------------------------------------------------ local
 
-fn local_encrypt(family: u8, key: &[u8], n: &[u8], m: &[u8], f: &[u8], i: &[u8], iv: Option<&IvSpec>) -> Option<Vec<u8>> {
-    let h = format!("v{family}.local.");
+fn local_encrypt(family: u8, sfx: &str, key: &[u8], n: &[u8], m: &[u8], f: &[u8], i: &[u8], iv: Option<&IvSpec>) -> Option<Vec<u8>> {
+    let h = format!("v{family}{sfx}.local.");
     match family {
         1 => {
             if n.len() != 32 || !i.is_empty() {
@@ -164,7 +164,7 @@ fn local_encrypt(family: u8, key: &[u8], n: &[u8], m: &[u8], f: &[u8], i: &[u8],
     }
 }
 
-fn local_decrypt(family: u8, key: &[u8], payload: &[u8], f: &[u8], i: &[u8], iv: Option<&IvSpec>) -> Option<Vec<u8>> {
+fn local_decrypt(family: u8, sfx: &str, key: &[u8], payload: &[u8], f: &[u8], i: &[u8], iv: Option<&IvSpec>) -> Option<Vec<u8>> {
     let (nl, tl) = match family {
         1 | 3 => (32, 48),
         2 => (24, 16),
@@ -183,7 +183,8 @@ fn local_decrypt(family: u8, key: &[u8], payload: &[u8], f: &[u8], i: &[u8], iv:
         use libsodium_rs::crypto_aead::xchacha20poly1305 as aead;
         let k = aead::Key::from_bytes(key).ok()?;
         let nn = aead::Nonce::try_from_slice(n).ok()?;
-        let ad = pae(&[b"v2.local.", n, f]);
+        let h = format!("v2{sfx}.local.");
+        let ad = pae(&[h.as_bytes(), n, f]);
         return aead::decrypt_detached(c, t, Some(&ad), &nn, &k).ok();
     }
     // encrypt-side recomputation: decrypt c, re-encrypt, compare whole payload
@@ -209,7 +210,7 @@ fn local_decrypt(family: u8, key: &[u8], payload: &[u8], f: &[u8], i: &[u8], iv:
             xchacha20(&tmp[..32], &tmp[32..], c)
         }
     };
-    let again = local_encrypt(family, key, n, &m, f, i, iv)?;
+    let again = local_encrypt(family, sfx, key, n, &m, f, i, iv)?;
     if again == payload { Some(m) } else { None }
 }
 
@@ -234,8 +235,8 @@ fn rsa_spki_to_pkcs1(spki: &[u8]) -> Option<&[u8]> {
 }
 
 /// Sign with the reference. Returns (signature bytes, public key raw bytes as the library encodes them).
-fn public_sign(family: u8, secret_raw: &[u8], m: &[u8], f: &[u8], i: &[u8]) -> Option<(Vec<u8>, Vec<u8>)> {
-    let h = format!("v{family}.public.");
+fn public_sign(family: u8, sfx: &str, secret_raw: &[u8], m: &[u8], f: &[u8], i: &[u8]) -> Option<(Vec<u8>, Vec<u8>)> {
+    let h = format!("v{family}{sfx}.public.");
     match family {
         2 | 4 => {
             use libsodium_rs::crypto_sign;
@@ -298,8 +299,8 @@ pub fn rsa_pkcs1_to_spki(pkcs1: &[u8]) -> Vec<u8> {
     out
 }
 
-fn public_verify(family: u8, public_raw: &[u8], payload: &[u8], f: &[u8], i: &[u8]) -> Option<Vec<u8>> {
-    let h = format!("v{family}.public.");
+fn public_verify(family: u8, sfx: &str, public_raw: &[u8], payload: &[u8], f: &[u8], i: &[u8]) -> Option<Vec<u8>> {
+    let h = format!("v{family}{sfx}.public.");
     let sl = match family {
         1 => 256,
         3 => 96,
@@ -340,15 +341,15 @@ fn public_verify(family: u8, public_raw: &[u8], payload: &[u8], f: &[u8], i: &[u
 
 /// Reference issuer. Returns the token text and the raw bytes of the key that unseals it.
 #[allow(clippy::too_many_arguments)]
-pub fn seal(family: u8, purpose: Purp, key_raw: &[u8], m: &[u8], f: &[u8], i: &[u8], nonce: &[u8], iv: Option<&IvSpec>) -> Option<(String, Vec<u8>)> {
+pub fn seal(family: u8, sfx: &str, purpose: Purp, key_raw: &[u8], m: &[u8], f: &[u8], i: &[u8], nonce: &[u8], iv: Option<&IvSpec>) -> Option<(String, Vec<u8>)> {
     let (payload, unseal_raw) = match purpose {
-        Purp::Local => (local_encrypt(family, key_raw, nonce, m, f, i, iv)?, key_raw.to_vec()),
+        Purp::Local => (local_encrypt(family, sfx, key_raw, nonce, m, f, i, iv)?, key_raw.to_vec()),
         Purp::Public => {
-            let (sig, pk) = public_sign(family, key_raw, m, f, i)?;
+            let (sig, pk) = public_sign(family, sfx, key_raw, m, f, i)?;
             ([m, &sig].concat(), pk)
         }
     };
-    let mut s = format!("v{family}.{}.{}", purpose.name(), b64(&payload));
+    let mut s = format!("v{family}{sfx}.{}.{}", purpose.name(), b64(&payload));
     if !f.is_empty() {
         s.push('.');
         s.push_str(&b64(f));
@@ -359,12 +360,17 @@ pub fn seal(family: u8, purpose: Purp, key_raw: &[u8], m: &[u8], f: &[u8], i: &[
 /// Reference verifier: Some((message, footer)) iff the token is valid for this key and assertion.
 pub fn unseal(family: u8, purpose: Purp, key_raw: &[u8], text: &str, i: &[u8], iv: Option<&IvSpec>) -> Option<(Vec<u8>, Vec<u8>)> {
     let parts = crate::faults::TokParts::parse(text)?;
-    if parts.header != format!("v{family}.{}.", purpose.name()) {
+    // the header is authenticated as it stands; its encoding suffix (between version and purpose) is
+    // whatever the token says, the caller decides whether that is the expected one
+    let tail = format!(".{}.", purpose.name());
+    let sfx = parts.header.strip_prefix(&format!("v{family}"))?.strip_suffix(&tail)?.to_string();
+    if !sfx.bytes().all(|c| c.is_ascii_lowercase()) {
         return None;
     }
+    let sfx = sfx.as_str();
     let m = match purpose {
-        Purp::Local => local_decrypt(family, key_raw, &parts.payload, &parts.footer, i, iv)?,
-        Purp::Public => public_verify(family, key_raw, &parts.payload, &parts.footer, i)?,
+        Purp::Local => local_decrypt(family, sfx, key_raw, &parts.payload, &parts.footer, i, iv)?,
+        Purp::Public => public_verify(family, sfx, key_raw, &parts.payload, &parts.footer, i)?,
     };
     Some((m, parts.footer))
 }
@@ -685,7 +691,7 @@ pub fn selftest() -> Result<usize, String> {
                     2 => synthetic_nonce(2, &nonce, &payload),
                     _ => nonce.clone(),
                 };
-                let (again, _) = seal(fam, Purp::Local, &key, &payload, &footer, &ia, &wire, None).ok_or(format!("{name}: reference cannot encrypt"))?;
+                let (again, _) = seal(fam, "", Purp::Local, &key, &payload, &footer, &ia, &wire, None).ok_or(format!("{name}: reference cannot encrypt"))?;
                 if again != token {
                     return Err(format!("{name}: reference encrypts spec vector differently"));
                 }
@@ -783,10 +789,11 @@ fn ecdsa_p384_with_nonce(scalar: &[u8], digest: &[u8], nonce: &[u8]) -> Option<(
 }
 
 /// The v3.public token RFC 6979 + low-s normalisation prescribes (byte exact).
-pub fn v3_public_deterministic(secret_raw: &[u8], m: &[u8], f: &[u8], i: &[u8]) -> Option<String> {
+pub fn v3_public_deterministic(sfx: &str, secret_raw: &[u8], m: &[u8], f: &[u8], i: &[u8]) -> Option<String> {
     use num_bigint_dig::BigUint;
     let (_, comp) = p384_public_from_scalar(secret_raw)?;
-    let m2 = pae(&[&comp, b"v3.public.", m, f, i]);
+    let hdr = format!("v3{sfx}.public.");
+    let m2 = pae(&[&comp, hdr.as_bytes(), m, f, i]);
     let h1 = sha384(&[&m2]);
     let k = rfc6979_k_p384(secret_raw, &h1, 4).into_iter().next()?;
     let (r, s) = ecdsa_p384_with_nonce(secret_raw, &h1, &k)?;
@@ -797,7 +804,7 @@ pub fn v3_public_deterministic(secret_raw: &[u8], m: &[u8], f: &[u8], i: &[u8]) 
     let mut s48 = vec![0u8; 48 - sb.len()];
     s48.extend(sb);
     let payload = [m, &r, &s48].concat();
-    let mut t = format!("v3.public.{}", b64(&payload));
+    let mut t = format!("{hdr}{}", b64(&payload));
     if !f.is_empty() {
         t.push('.');
         t.push_str(&b64(f));
